@@ -3,6 +3,7 @@ module verif/harness
 go 1.22
 
 require (
+	github.com/anishathalye/porcupine v1.3.0
 	github.com/goose-lang/goose v0.0.0
 	github.com/goose-lang/primitive v0.1.0
 	golang.org/x/sys v0.22.0
@@ -10,6 +11,7 @@ require (
 )
 
 require (
+	github.com/anishathalye/porcupine v1.3.0
 	github.com/pkg/errors v0.9.1 // indirect
 	golang.org/x/mod v0.19.0 // indirect
 	golang.org/x/sync v0.7.0 // indirect
